@@ -299,6 +299,13 @@ func (gme *GCPMultiEndpoint) UpdateMultiEndpoints(meOpts *GCPMultiEndpointOption
 	if _, ok := meOpts.MultiEndpoints[meOpts.Default]; !ok {
 		return fmt.Errorf("default MultiEndpoint %q missing options", meOpts.Default)
 	}
+	// Validate everything before touching pools or MultiEndpoints: a rejected
+	// update must not be partially applied.
+	for name, meo := range meOpts.MultiEndpoints {
+		if meo == nil || len(meo.Endpoints) == 0 {
+			return fmt.Errorf("MultiEndpoint %q: endpoints list cannot be empty", name)
+		}
+	}
 
 	validPools := make(map[string]bool)
 	for _, meo := range meOpts.MultiEndpoints {
